@@ -481,6 +481,26 @@ pub fn m04(ix: &Index) -> Vec<Violation> {
             }
         }
     }
+    // "re-sent after a resumed reconnect until PUBCOMP/PUBACK": decidable at the end of the drain phase, where a
+    // responsive compliant broker was available until nothing more happened - a message that is still
+    // unacknowledged then must at least have been retransmitted (PUBLISH or PUBREL) on the final, resumed connection
+    if ix.reset_ev.is_none() && ix.drain_quiescent == Some(false) && !ix.drain_step_bound_hit && !ix.panicked() {
+        if let Some((last_id, last)) = ix.conns.iter().next_back() {
+            if last.session_present == Some(true) && last.first_err_ev.is_none() && last.close_ev.is_none() {
+                for (tag, r) in &ix.tags {
+                    if !matches!(r.kind, Some(Kind::Pub1 | Kind::Pub2)) || !r.dones.is_empty() {
+                        continue;
+                    }
+                    let sent_before = r.emits.iter().chain(r.pubrels.iter()).any(|&x| tr.emitted[x].conn < *last_id);
+                    let sent_here = r.emits.iter().chain(r.pubrels.iter()).any(|&x| tr.emitted[x].conn == *last_id);
+                    let lost = r.emits.iter().chain(r.pubrels.iter()).map(|&x| ix.emit_ev[x]).max().map(|e| ix.session_lost_between(e, usize::MAX)).unwrap_or(false);
+                    if sent_before && !sent_here && !lost {
+                        out.push(v("C04.retransmission_missing", "an unacknowledged QoS1/2 message is neither retransmitted nor released on a resumed connection with a responsive broker", format!("tag {} conn {}", tag, last_id)));
+                    }
+                }
+            }
+        }
+    }
     // PUBRELs that belong to nobody
     for (i, em) in tr.emitted.iter().enumerate() {
         if let rf::Packet::Pubrel(a) = &em.pkt {
@@ -1198,14 +1218,17 @@ pub fn m15(ix: &Index) -> Vec<Violation> {
                     _ => None,
                 });
                 let failed_here = matches!(done, Some((_, _, Done::Err(..), call)) if Some(*call) == close_call);
+                // every disconnection the operation lives through is examined (an in-flight publish may be retained over
+                // one disconnection and then mistreated at the next, e.g. while its retransmission is half written)
                 if in_flight {
                     if matches!(done, Some((_, _, Done::Err(EK::OfflineQueuePolicyFailed, _), call)) if Some(*call) == close_call) {
                         out.push(v("C15.in_flight_publish_failed_at_disconnect", "an in-flight QoS1/2 publish was failed by the offline policy at disconnection instead of being retained for session resumption", format!("tag {} conn {}", tag, conn)));
+                        break;
                     }
                 } else if !failed_here && !ix.panicked() {
                     out.push(v("C15.rejected_kind_survived_disconnect", format!("{:?} survived a disconnection although policy {} rejects it", kind, pol), format!("tag {} conn {} outcome {:?}", tag, conn, done.map(|d| &d.2))));
+                    break;
                 }
-                break;
             }
         }
         // 4. preserved kinds complete successfully in the drain phase
